@@ -50,6 +50,8 @@ structure HitAdj (α : Type) where
   attDmgAdd : α       -- added to the attacker's all-damage bonus
   attCritAdd : α      -- added to the attacker's crit chance
   defTakenAdd : α     -- added to the defender's all-damage-taken
+  defReduceAdd : α    -- a further damage reduction of the defender (reductions combine multiplicatively: `PropMap.Modify`)
+  attFatigueAdd : α   -- a further fatigue of the attacker (combines the same way)
 
 structure AttackP (α : Type) where
   key : Int
@@ -199,18 +201,24 @@ def hitRatioOf (p : AttackP α) : α := if p.hitRatio ≤ 0 then 1 else p.hitRat
 /-- does the listener adjust the hit against `tgt` -/
 def adjApplies (a : HitAdj α) (tgt : Int) : Bool := a.onlyTgt == 0 || a.onlyTgt == tgt
 
+/-- how damage reductions and fatigue stack (`info.PropMap.Modify`): the remaining shares multiply -/
+def stackReduce (old add : α) : α := 1 - (1 - old) * (1 - add)
+
 /-- the attacker's stats as the hit against `tgt` sees them: a fresh snapshot per hit, plus what the
 hit listener added to *this* hit's snapshot -/
 def attackerFor (s : St α) (p : AttackP α) (tgt : Int) : CStats α :=
   match p.adj with
   | some a => if adjApplies a tgt then
-      { statsOf s p.src with allDmgPct := (statsOf s p.src).allDmgPct + a.attDmgAdd, critChance := (statsOf s p.src).critChance + a.attCritAdd }
+      { statsOf s p.src with allDmgPct := (statsOf s p.src).allDmgPct + a.attDmgAdd, critChance := (statsOf s p.src).critChance + a.attCritAdd,
+                             fatigue := stackReduce (statsOf s p.src).fatigue a.attFatigueAdd }
     else statsOf s p.src
   | none => statsOf s p.src
 
 def defenderFor (s : St α) (p : AttackP α) (tgt : Int) : CStats α :=
   match p.adj with
-  | some a => if adjApplies a tgt then { statsOf s tgt with allTaken := (statsOf s tgt).allTaken + a.defTakenAdd } else statsOf s tgt
+  | some a => if adjApplies a tgt then
+      { statsOf s tgt with allTaken := (statsOf s tgt).allTaken + a.defTakenAdd, reduce := stackReduce (statsOf s tgt).reduce a.defReduceAdd }
+    else statsOf s tgt
   | none => statsOf s tgt
 
 def hitFactors (s : St α) (p : AttackP α) (tgt : Int) (draw : α) : Factors α :=
